@@ -630,14 +630,18 @@ def edge_numbers() -> st.SearchStrategy:
 
 
 def edge_numbers_of(kind: str) -> st.SearchStrategy:
-    """Hand-picked edge values of one numeric kind ("int" | "float" | "decimal" | "complex" | "fraction")."""
+    """Hand-picked edge values of one numeric kind ("int" | "float" | "decimal" | "complex")."""
     if kind == "int":
         return st.sampled_from([_i(v) for v in INT_EDGES])
     if kind == "float":
         return st.sampled_from([_f(x) for x in FLOAT_EDGES])
     if kind == "decimal":
         return st.sampled_from([{"k": "decimal", "v": d} for d in DECIMAL_EDGES])
-    return edge_numbers().map(lambda r: r)  # complex / fraction edges live in the mixed pool only
+    if kind == "complex":
+        parts = [0.0, -0.0, 1.0, -2.5, 1e308, 5e-324, float("inf"), float("-inf"), float("nan")]
+        return st.tuples(st.sampled_from(parts), st.sampled_from(parts)).map(
+            lambda t: {"k": "complex", "re": _f(t[0])["x"], "im": _f(t[1])["x"]})
+    raise ValueError(kind)
 
 
 def numbers() -> st.SearchStrategy:
@@ -738,7 +742,9 @@ def hashable_objects() -> st.SearchStrategy:
     """Objects that can safely be members of sets / dict keys while a case is being materialised."""
     eq = st.fixed_dictionaries({}, optional={"__eq__": st.sampled_from(["key", "T", "F"])})
     methods = st.tuples(eq, st.sampled_from(["tag", "const"])).map(lambda t: _merge(t[0], {"__hash__": t[1]}))
-    cls = st.fixed_dictionaries({"n": st.just("H"), "m": choice(st.just({}), methods), "base": st.none()})
+    # always a recipe-defined __hash__: the default identity hash would make set/dict iteration order (and with it which
+    # elements a set comparison looks at) depend on memory addresses, i.e. differ between two runs of the same case
+    cls = st.fixed_dictionaries({"n": st.just("H"), "m": methods, "base": st.none()})
     return st.fixed_dictionaries({"k": st.just("obj"), "cls": cls, "tag": st.integers(0, 3), "items": st.just([])})
 
 
